@@ -55,6 +55,22 @@ def check_one(kind, d):
             return [("parse-not-repeatable", f"parsing {s[:100]!r} twice gives different definitions")]
     except Exception as e:
         return [(f"second-use-exc:{norm_msg(e, 30)}", f"second str()/from_string raised {type(e).__name__}: {e}")]
+    if back == obj:
+        # a parsed definition is the caller's own value: editing its lists must not influence later parses
+        try:
+            for fld in ("names", "must", "may", "super_types", "aux", "never"):
+                lst = getattr(back, fld, None)
+                if isinstance(lst, list):
+                    lst.append("edited-by-caller")
+            for v in back.extensions.values():
+                v.append("edited-by-caller")
+            again = gs.cls_of(sl, kind).from_string(s)
+            if again != obj:
+                fld = next((k for k in d if gs.from_obj(kind, again).get(k) != d[k]), "?")
+                return [(f"parse-result-shared-with-earlier-parse:{fld}", f"after the caller edited a previously parsed definition, parsing {s[:80]!r} again gives field {fld} = {gs.from_obj(kind, again).get(fld)!r}")]
+        except Exception as e:
+            return [(f"second-use-exc:{norm_msg(e, 30)}", f"{type(e).__name__}: {e}")]
+        return []
     if back != obj:
         a, b = gs.from_obj(kind, back), d
         fld = next((k for k in b if a.get(k) != b[k]), "?")
